@@ -26,6 +26,7 @@ import (
 	"sort"
 	"strings"
 	"testing"
+	"time"
 
 	"github.com/basekick-labs/arc/internal/config"
 	"github.com/basekick-labs/arc/internal/database"
@@ -173,14 +174,55 @@ type c10Case struct {
 }
 
 var (
-	c10Ints    = []int64{-2, -1, 0, 1, 2, 3, 4}
-	c10Floats  = []float64{-1.5, 0, 0.5, 2.25, 3}
-	c10Strs    = []string{"a", "ab", "abc", "b", "B", "", "it's", "a%b", "x_y"}
-	c10Tags    = []string{"x", "y", "a", "ab"}
-	c10TimeFmt = "2024-03-01 %02d:%02d:00"
+	c10Ints   = []int64{-2, -1, 0, 1, 2, 3, 4}
+	c10Floats = []float64{-1.5, 0, 0.5, 2.25, 3}
+	c10Strs   = []string{"a", "ab", "abc", "b", "B", "", "it's", "a%b", "x_y"}
+	c10Tags   = []string{"x", "y", "a", "ab"}
 )
 
-func c10Time(k int) string { return fmt.Sprintf(c10TimeFmt, (k*15)/60, (k*15)%60) }
+const c10TS = "2006-01-02 15:04:05"
+
+// c10Part is one time partition directory: an hour (YYYY/MM/DD/HH) or, for
+// daily-compacted files, a day (YYYY/MM/DD). Arc stores a row in the partition
+// of its timestamp, so the generated row times lie inside the file's partition.
+type c10Part struct {
+	start time.Time
+	daily bool
+}
+
+func (p c10Part) dir() string {
+	if p.daily {
+		return p.start.Format("2006/01/02")
+	}
+	return p.start.Format("2006/01/02/15")
+}
+func (p c10Part) end() time.Time {
+	if p.daily {
+		return p.start.Add(24 * time.Hour)
+	}
+	return p.start.Add(time.Hour)
+}
+
+func c10Hour(y int, m time.Month, d, h int) c10Part {
+	return c10Part{start: time.Date(y, m, d, h, 0, 0, 0, time.UTC)}
+}
+func c10Daily(y int, m time.Month, d int) c10Part {
+	return c10Part{start: time.Date(y, m, d, 0, 0, 0, 0, time.UTC), daily: true}
+}
+
+// partition pool: mostly one day, plus the next day, a partition before 2020
+// and one in the far future (historic backfills / device clocks set ahead)
+var c10Pool = []c10Part{
+	c10Hour(2024, 3, 1, 0), c10Hour(2024, 3, 1, 1), c10Hour(2024, 3, 1, 2), c10Hour(2024, 3, 1, 3), c10Hour(2024, 3, 1, 4),
+	c10Hour(2024, 3, 1, 0), c10Hour(2024, 3, 1, 1), c10Hour(2024, 3, 1, 2), c10Hour(2024, 3, 1, 3), c10Hour(2024, 3, 1, 4),
+	c10Daily(2024, 3, 1), c10Daily(2024, 3, 1), c10Daily(2024, 3, 2), c10Hour(2024, 3, 2, 0), c10Hour(2024, 3, 2, 7),
+	c10Hour(2019, 12, 31, 23), c10Daily(2019, 6, 30), c10Hour(2099, 1, 1, 0), c10Daily(2099, 1, 2),
+}
+
+// c10CaseTimes holds time literals that are meaningful for the case being
+// generated (partition starts/ends and instants inside them); set by c10GenData
+// and read by c10TimeLit (rapid runs one case at a time per test).
+var c10CaseTimes []string
 
 func c10Null(t *rapid.T, label string) bool {
 	return rapid.IntRange(0, 3).Draw(t, label+"-null") == 0 // ~25 %
@@ -190,18 +232,35 @@ func c10GenData(t *rapid.T) c10Case {
 	var c c10Case
 	nf := rapid.IntRange(1, 5).Draw(t, "nfiles")
 	rid := int64(0)
+	used := map[string]bool{}
+	dirs := map[string]bool{}
+	c10CaseTimes = c10CaseTimes[:0]
 	for k := 0; k < nf; k++ {
-		var rel string
-		if rapid.IntRange(0, 4).Draw(t, "daylevel") == 0 {
-			rel = fmt.Sprintf("2024/03/01/f%d_daily.parquet", k)
-		} else {
-			// the same base name may occur in several hour partitions (backfills,
-			// imports): only the full relative path identifies a file
-			name := k
-			if rapid.Bool().Draw(t, "samebase") {
-				name = 0
-			}
-			rel = fmt.Sprintf("2024/03/01/%02d/f%d.parquet", k, name)
+		part := rapid.SampledFrom(c10Pool).Draw(t, "partition")
+		// the same base name may occur in several partitions (backfills,
+		// imports): only the full relative path identifies a file
+		name := k
+		if rapid.Bool().Draw(t, "samebase") {
+			name = 0
+		}
+		suffix := ""
+		if part.daily {
+			suffix = "_daily"
+		}
+		rel := fmt.Sprintf("%s/f%d%s.parquet", part.dir(), name, suffix)
+		if used[rel] {
+			rel = fmt.Sprintf("%s/f%d%s.parquet", part.dir(), k, suffix)
+		}
+		used[rel] = true
+		dirs[part.dir()] = true
+		switch y := part.start.Year(); {
+		case y < 2020:
+			verifkit.Class("layout-partition-before-2020")
+		case y > 2090:
+			verifkit.Class("layout-partition-far-future")
+		}
+		for _, d := range []time.Duration{-time.Hour, 0, 30 * time.Minute, time.Hour, 24 * time.Hour} {
+			c10CaseTimes = append(c10CaseTimes, part.start.Add(d).Format(c10TS))
 		}
 		c.Files = append(c.Files, rel)
 		c.Extra = append(c.Extra, rapid.IntRange(0, 5).Draw(t, "extra") == 0)
@@ -210,7 +269,13 @@ func c10GenData(t *rapid.T) c10Case {
 			rid++
 			row := c10Row{File: k, Rid: rid}
 			if !c10Null(t, "time") {
-				s := c10Time(rapid.IntRange(0, 20).Draw(t, "time"))
+				var off time.Duration
+				if part.daily {
+					off = time.Duration(rapid.IntRange(0, 95).Draw(t, "time")) * 15 * time.Minute
+				} else {
+					off = time.Duration(rapid.IntRange(0, 11).Draw(t, "time")) * 5 * time.Minute
+				}
+				s := part.start.Add(off).Format(c10TS)
 				row.Time = &s
 			}
 			if !c10Null(t, "i") {
@@ -235,6 +300,9 @@ func c10GenData(t *rapid.T) c10Case {
 			}
 			c.Rows = append(c.Rows, row)
 		}
+	}
+	if len(dirs) > 1 {
+		verifkit.Class("layout-several-partition-directories")
 	}
 	return c
 }
@@ -264,12 +332,59 @@ func c10LikeLit(t *rapid.T) string {
 	return duck.SQLString(rapid.SampledFrom([]string{"a%", "%b", "%b%", "a_", "_", "%", "a%b", "it%", "", "A%", "%_c"}).Draw(t, "like"))
 }
 func c10TimeLit(t *rapid.T) string {
-	s := "'" + c10Time(rapid.IntRange(0, 21).Draw(t, "tlit")) + "'"
-	if rapid.IntRange(0, 2).Draw(t, "tskw") == 0 {
-		return "TIMESTAMP " + s
+	pool := c10CaseTimes
+	if len(pool) == 0 {
+		pool = []string{"2024-03-01 00:00:00", "2024-03-01 02:30:00"}
 	}
-	return s
+	v := rapid.SampledFrom(pool).Draw(t, "tlit")
+	switch rapid.IntRange(0, 5).Draw(t, "tform") {
+	case 0:
+		return "TIMESTAMP '" + v + "'"
+	case 1:
+		if strings.HasSuffix(v, " 00:00:00") {
+			return "'" + strings.TrimSuffix(v, " 00:00:00") + "'" // date-only literal
+		}
+	}
+	return "'" + v + "'"
 }
+
+// c10DirectedTimePred draws predicates in which a quoted time bound on the time
+// column is NOT a top-level conjunct (under OR / NOT), or is a one-sided bound:
+// rows in partitions outside the literal bound still match through the other
+// branch, and one-sided bounds meet partitions before 2020 / in the far future.
+func c10DirectedTimePred(t *rapid.T) string {
+	tcmp := func() string {
+		return "time " + rapid.SampledFrom([]string{"<", "<=", ">", ">="}).Draw(t, "tcmp") + " " + "'" + rapid.SampledFrom(c10CaseTimes).Draw(t, "dlit") + "'"
+	}
+	other := func() string {
+		return rapid.SampledFrom([]string{"tag = 'x'", "s = 'a'", "i >= 2", "b", "tag IN ('a', 'y')", "i IS NULL", "rid % 3 = 0", "f < 1", "time IS NULL"}).Draw(t, "other")
+	}
+	lo, hi := rapid.SampledFrom(c10CaseTimes).Draw(t, "lo"), rapid.SampledFrom(c10CaseTimes).Draw(t, "hi")
+	if lo > hi {
+		lo, hi = hi, lo
+	}
+	switch rapid.IntRange(0, 9).Draw(t, "directed") {
+	case 0, 1:
+		return tcmp() + " " + c10KW(t, "OR") + " " + other()
+	case 2:
+		return other() + " " + c10KW(t, "OR") + " " + tcmp()
+	case 3:
+		return c10KW(t, "NOT") + " (" + tcmp() + ")"
+	case 4:
+		return c10KW(t, "NOT") + " (" + tcmp() + " " + c10KW(t, "AND") + " " + other() + ")"
+	case 5:
+		return fmt.Sprintf("(time >= '%s' %s time < '%s') %s %s", lo, c10KW(t, "AND"), hi, c10KW(t, "OR"), other())
+	case 6:
+		return fmt.Sprintf("time %s '%s' %s '%s' %s %s", c10KW(t, "BETWEEN"), lo, c10KW(t, "AND"), hi, c10KW(t, "OR"), other())
+	case 7:
+		return fmt.Sprintf("time %s %s '%s' %s '%s'", c10KW(t, "NOT"), c10KW(t, "BETWEEN"), lo, c10KW(t, "AND"), hi)
+	case 8:
+		return tcmp() // one-sided bound on its own
+	default:
+		return tcmp() + " " + c10KW(t, "OR") + " " + tcmp()
+	}
+}
+
 func c10Cmp(t *rapid.T) string {
 	return rapid.SampledFrom([]string{"=", "<>", "!=", "<", "<=", ">", ">="}).Draw(t, "cmp")
 }
@@ -686,7 +801,12 @@ func TestVerifC10_DeleteMatchesReference(t *testing.T) {
 		kind := rapid.SampledFrom([]string{"valid", "valid", "valid", "valid", "valid", "valid", "valid", "valid", "valid", "valid", "valid", "valid", "valid", "valid",
 			"unknown-column", "syntax", "where-prefix", "validator"}).Draw(t, "kind")
 		if kind == "valid" {
-			c.Pred = c10Pred(t, rapid.IntRange(0, 3).Draw(t, "depth"))
+			if rapid.IntRange(0, 3).Draw(t, "directedTime") == 0 {
+				c.Pred = c10DirectedTimePred(t)
+				verifkit.Class("predicate-time-bound-under-or-not-or-one-sided")
+			} else {
+				c.Pred = c10Pred(t, rapid.IntRange(0, 3).Draw(t, "depth"))
+			}
 			c10RunCase(t, e, &c, false)
 			return
 		}
